@@ -4,6 +4,7 @@ by the runner; per-definition determinism is exercised by repeated/permuted runs
 `checks/c17.py`).
 -/
 import Circomspect.Lemmas.RunnerLemmas
+import Circomspect.Lemmas.SsaWalkLemmas
 
 namespace Circomspect.C17
 open Circomspect Runner RunnerLemmas
@@ -35,6 +36,31 @@ theorem C17_exit_perm (o : Opts) (p : Project) (σ τ : List String) (hσ : σ.N
   unfold exitCode summary
   rw [written_eq, written_eq, h]
   exact ⟨rfl, rfl⟩
+
+/-- inside one definition, the two places where SSA conversion iterates over hash sets do not influence the result:
+    (1) the set of phi statements is the least placement closed under the dominance frontier, whatever the order of the work
+    list, of the frontier sets and of the written variables; (2) the order in which the phi statements of a block are numbered
+    changes no version number, no converted statement and no phi argument.  (The third place, the order of the children of a
+    dominator-tree node, did influence the numbering and the reported undefined variable; repaired in a093830 by sorting.) -/
+theorem C17_ssa_hash_order (c : SsaBuild.PCfg) (idom : Nat → Nat) (df : Nat → List Nat)
+    (hdf : ∀ x j, j ∈ df x → j < c.blocks.length) (fuel fuel' : Nat) (P P' : SsaBuild.Phis)
+    (hP : SsaBuild.insertPhis df (SsaBuild.written c) fuel (List.range c.blocks.length) (fun _ => []) = some P)
+    (hP' : SsaBuild.Closed c.blocks.length df (SsaBuild.written c) P' ∧
+      ∀ Q, SsaBuild.Closed c.blocks.length df (SsaBuild.written c) Q → ∀ j v, v ∈ P' j → v ∈ Q j) :
+    ∀ j v, v ∈ P j ↔ v ∈ P' j := by
+  intro j v
+  have h1 := SsaBuild.insertPhis_closed_init c.blocks.length df (SsaBuild.written c) fuel P hP
+  have h2 := SsaBuild.insertPhis_least c.blocks.length df (SsaBuild.written c) hdf
+  exact ⟨h2 P' hP'.1 fuel _ _ P (fun y hy => List.mem_range.mp hy) (fun j v h => (List.not_mem_nil h).elim) hP j v,
+    hP'.2 P h1 j v⟩
+
+theorem C17_ssa_phi_order (c : SsaBuild.PCfg) (P P' : SsaBuild.Phis) (idom : Nat → Nat)
+    (hperm : ∀ i, (P i).Perm (P' i)) (hP : ∀ i, (P i).Nodup)
+    (hlt : ∀ j, 0 < j → j < c.blocks.length → idom j < j) (hpar : c.params.Nodup)
+    (st : SsaWalk.St) (h : SsaWalk.run c P idom = .ok st) :
+    ∃ st', SsaWalk.run c P' idom = .ok st' ∧ (∀ s, SsaWalk.verOf st.log s = SsaWalk.verOf st'.log s) ∧
+      st.done = st'.done ∧ st.args = st'.args :=
+  SsaWalk.run_perm c P P' idom hperm hP hlt hpar st h
 
 example : (["A", "B"] : List String).Perm ["B", "A"] := List.Perm.swap _ _ _
 
